@@ -621,11 +621,3 @@ theorem time_getter_from_constant_getter (clk : TimeOutput) (v : T) :
   cases clk <;> rfl
 
 end Rrtk.Thm.C15
-
-#print axioms Rrtk.Thm.C15.last_request_is_last_successful_set
-#print axioms Rrtk.Thm.C15.lastSuccessfulFrom_eq_some_iff
-#print axioms Rrtk.Thm.C15.stop_following_stops
-#print axioms Rrtk.Thm.C15.gfh_set_time
-#print axioms Rrtk.Thm.C15.constant_getter_value_is_last_set
-#print axioms Rrtk.Thm.C15.time_getter_from_getter_get
-
